@@ -66,9 +66,11 @@ namespace occa {
   }
 
   memoryPool& memoryPool::swap(memoryPool &m) {
-    modeMemoryPool_t *modeMemoryPool_ = modeMemoryPool;
-    modeMemoryPool   = m.modeMemoryPool;
-    m.modeMemoryPool = modeMemoryPool_;
+    // Exchange through copies so that both handles are re-linked
+    // into the reference ring of the object they now refer to
+    memoryPool tmp(*this);
+    *this = m;
+    m = tmp;
     return *this;
   }
 
